@@ -35,7 +35,6 @@ EXPECTED_NOT_UNDERSTOOD = {
     "seeded/C09-V/patch.diff": "nx.dag_longest_path replaced by a hand-rolled relaxation over a (ts, is_start, id) order: whether a hand-made order is topological for every graph is not decidable from the shape (same family as C09-T)",
     "seeded/C12-U/patch.diff": "step lookup vectorised with np.searchsorted over unsorted step starts: searchsorted is not interpreted (same family as C12-C)",
     "seeded/C16-L/patch.diff": "the per-pattern duration lists replaced by another accumulator: the rule looks for the two list stores and finds neither (look-for rule: not understood)",
-    "seeded/C17-V/patch.diff": "summaries memoised per (rank, iteration, device) and renamed in place by a later call: the rule evaluates one call and does not model the cache across calls",
     "seeded/C12-C/patch.diff": "step lookup rewritten with np.searchsorted over unsorted annotations: the evaluator has no model of searchsorted",
     "seeded/C07-E/patch.diff": "computation kernels swept unmerged with running >= 3: a different sweep algorithm; the rule only knows the two-merged-operand template",
     "seeded/C11-F/patch.diff": "cat/name encoded with two pd.factorize calls and an offset: ids no longer read from the table; pd.factorize is not interpreted",
